@@ -93,11 +93,15 @@ CLAIMED["C04"] = dict(
          "in the class hierarchy (the two obligations the unchanged tree failed); (ii) Data_K.degen (real text) for all real sorted "
          "energies at nb = 2..5: the groups are exactly the maximal runs of consecutive gaps <= threshold of length > 1; (iii) Data_K.UU_K "
          "(real text, real numpy on symbolic complex entries, 2 k-points x 4 bands): each degenerate group's columns are the old columns "
-         "times that group's unitary matrix, every other entry untouched, nothing happens without the option. Invariance of the results "
-         "themselves (gauge covariance of the formulas) and periodicity k -> k+G are carried by a bounded stand-in only: evaluate_k on "
-         "random Hermitian models with external-term matrices at k, k+G and with random_gauge, plus a doubled model with exact "
-         "degeneracies (labelled bounded). Periodicity of the phases is the integer-shift law of the phase algebra used in C02/C33.",
-    note=TB + "; scipy.stats.unitary_group.rvs returns a unitary matrix (external); gauge covariance of the trace formulas is NOT proved")
+         "times that group's unitary matrix, every other entry untouched, nothing happens without the option; (iv) periodicity: the real "
+         "R_to_k chain of C02 at k and k+G (explicit k-list, FFT grid with the K-point shifted by a reciprocal lattice vector), "
+         "derivative orders 0-2, symbolic data / k / centres: identical matrices; (v) gauge covariance at the formula level: the real text "
+         "of Velocity, InvMass, Omega, DerOmega, Spin, DerSpin, Morb_H, morb (internal / external variants) on the real formula classes and "
+         "Data_K.covariant / D_H / dEig_inv, symbolic Hamiltonian-gauge matrices with an exactly degenerate pair of bands: the traces over "
+         "the degenerate group and over the remaining band do not change when every matrix X becomes W^dagger X W with an exact U(2) "
+         "rotation W inside the group (11 variants, per shape). End to end (eigen-solver, all tabulators) remains a bounded stand-in: "
+         "evaluate_k on random Hermitian models at k, k+G and with random_gauge, plus a doubled model with exact degeneracies.",
+    note=TB + "; scipy.stats.unitary_group.rvs returns a unitary matrix (external); np.linalg.eigh external: the formula-level units take the Hamiltonian-gauge matrices as inputs")
 
 CLAIMED["C23"] = dict(
     text="get_mp_grid and grid_from_kpoints (real text) executed exhaustively over the finite domain the property quantifies over: every "
